@@ -32,6 +32,9 @@ type vfC01Case struct {
 	// written (here: a FIFO whose reader pauses) - the save stage stands still for longer than the timeout while the data has
 	// arrived and been acknowledged. The receiver is alive and says so (it repeats its acknowledgement): the transfer must succeed.
 	StallSaveMs int `json:"stall_save_ms,omitempty"`
+	// AckLatencyMs > 0: a long line - everything the receiver writes reaches the sender that much later (in order). The sender's
+	// chunk-size adaptation sees acknowledgements that are 0.5-1 s, 1-2 s or more than 2 s old; nothing is lost or damaged.
+	AckLatencyMs int `json:"ack_latency_ms,omitempty"`
 }
 
 func (p vfTopPath) base() string { return p.Tree.Files[0].Rel[0] }
@@ -141,6 +144,13 @@ func vfC01Run(cs vfC01Case, res *vfC01Res) string {
 		if slow, err = vfNewSlowMedium(filepath.Join(dest, names[0]), time.Duration(cs.StallSaveMs)*time.Millisecond); err != nil {
 			return "fifo: " + err.Error()
 		}
+	}
+	if cs.AckLatencyMs > 0 {
+		back := r.s2c
+		if !cs.Cfg.Upload {
+			back = r.c2s
+		}
+		back.setLatency(time.Duration(cs.AckLatencyMs) * time.Millisecond)
 	}
 	r.run(paths, dest, 120*time.Second)
 	if slow != nil {
@@ -343,7 +353,7 @@ func vfGenC01(rt *rapid.T) vfC01Case {
 		}
 		cs.Cfg.SegC2S, cs.Cfg.SegS2C = vfSeg{}, vfSeg{}
 	}
-	if rapid.IntRange(0, 29).Draw(rt, "slow_saver") == 0 {
+	if rapid.IntRange(0, 29).Draw(rt, "slow_saver") == 17 {
 		// one file larger than a pipe buffer but small enough for the receiver's queues, -y at protocol 2 (the existing "file" is
 		// truncated and rewritten, never read), a short timeout, a medium that pauses for longer than that
 		cs.Paths = cs.Paths[:1]
@@ -354,6 +364,11 @@ func vfGenC01(rt *rapid.T) vfC01Case {
 		cs.Cfg.Bufsize = rapid.SampledFrom([]int64{0, 65536, 1048576}).Draw(rt, "stall_bufsize")
 		cs.Cfg.SegC2S, cs.Cfg.SegS2C = vfSeg{}, vfSeg{}
 		cs.StallSaveMs = 3300
+	}
+	if cs.StallSaveMs == 0 && total > 20000 && total < 400000 && (cs.Cfg.Bufsize == 0 || cs.Cfg.Bufsize >= 65536) && cs.Cfg.Protocol >= 2 && rapid.IntRange(0, 5).Draw(rt, "long_line") == 3 {
+		// (a few dozen chunks at most: with a window of a few chunks per round trip anything longer only costs time)
+		cs.AckLatencyMs = rapid.SampledFrom([]int{600, 750, 1300, 2200}).Draw(rt, "ack_latency")
+		cs.Cfg.Timeout = 20
 	}
 	// duplicate base names with -y are refused by design
 	if cs.Cfg.Overwrite {
@@ -437,6 +452,9 @@ func TestVF_C01(t *testing.T) {
 		nondefault := cs.Cfg != def
 		if res.alsoSub {
 			labels = append(labels, "sub_directory_also_named_by_itself")
+		}
+		if cs.AckLatencyMs > 0 {
+			labels = append(labels, fmt.Sprintf("acknowledgements_%dms_late", cs.AckLatencyMs))
 		}
 		if res.stalled {
 			labels = append(labels, "save_stage_stalled_beyond_the_timeout")
